@@ -223,7 +223,10 @@ ImplBech(s) ==
 
 (* Base58Check form: v version byte (-1: a byte no table mentions), plen   *)
 (* payload length, ck "ok"/"bad", defect "none" / "badchar" (symbol outside*)
-(* the alphabet) / "short" (fewer than 5 bytes).  dn: the default network. *)
+(* the alphabet) / "short" (fewer than 5 bytes); segprefix: the text of the *)
+(* string happens to start with a registered segwit prefix (any case) that  *)
+(* ends in its last '1' - base-58 uses the letters and the digit 1 too.     *)
+(* dn: the default network.                                                *)
 DecideB58(s, dn) ==
     LET n == NetOf(dn)
     IN  IF s.defect # "none" \/ s.ck # "ok" \/ s.plen # 20 THEN Reject
@@ -231,6 +234,11 @@ DecideB58(s, dn) ==
         ELSE IF s.v = n.pkh THEN [accept |-> TRUE, kind |-> "p2pkh", v |-> s.v, fornets |-> NetsWithPkh(s.v)]
         ELSE IF s.v = n.sh THEN [accept |-> TRUE, kind |-> "p2sh", v |-> s.v, fornets |-> NetsWithSh(s.v)]
         ELSE Reject
+
+\* What the code does: the dispatch of DecodeAddress looks at the text first; a
+\* Base58Check string that looks like prefix + '1' + data is handed to the
+\* bech32 decoder, whose error is final.
+ImplB58(s, dn) == IF s.segprefix THEN Reject ELSE DecideB58(s, dn)
 
 (* hex public key form: nchars 66 / 130, hexok, prefix byte class          *)
 (* (2,3,4,6,7 or 0 for any other), oncurve (x has a square root / (x,y) is *)
